@@ -60,7 +60,7 @@ CLAIMS = {
     "C07": dict(
         category="other", engine="pyvc+tracecheck+rtc",
         technique="trace contracts over every path of coerce_value / _coerce_list_value / _coerce_input_object (Engine P) + contract-based deductive verification of coerce_int (pyvc/z3) + run-time coercion contracts against a reference coercion on enumerated types x values",
-        text="All paths of variable-value coercion: null rejected for non-null and accepted for nullable types before anything is parsed; scalars parsed once, enum values by name only; a non-list value becomes a one-item list, items coerced once in order; per input field: absent with default -> default under the python name, absent and required -> error, present -> coerced and stored under the python name, unknown fields rejected; only coercion errors raised (14 obligations). coerce_int proved for int / bool / float / None inputs: accepts exactly the integral values of [-2^31, 2^31-1], returns them unchanged, raises only "
+        text="All paths of variable-value coercion: null rejected for non-null and accepted for nullable types before anything is parsed; scalars parsed once, enum values by name only; a non-list value becomes a one-item list, items coerced once in order; per input field: absent with default -> default under the python name, absent and required -> error, present -> coerced and stored under the python name, unknown fields rejected; only coercion errors raised; the literal route (_extract_input_object) applies the same per-field rules (17 obligations). Module frame: coercion modules keep no written module-level state. coerce_int proved for int / bool / float / None inputs: accepts exactly the integral values of [-2^31, 2^31-1], returns them unchanged, raises only "
              "ValueError. Bounded: coerce_value / value_from_ast / coerce_argument_values and the keyword arguments seen by resolvers agree with a "
              "reference transcription of the specification's input coercion over 9 named types x 7 wrapper shapes x value grids, on the variable "
              "and the literal route; rejected inputs never reach a resolver; per-type argument defaults on abstract-type selections.",
@@ -68,12 +68,16 @@ CLAIMS = {
              "recursive coercion functions are bounded only. Cross-kind scalar leniency (true for Int, 1 for String) is outside the property."),
     "C13": dict(
         category="other", engine="pyvc+rtc",
-        technique="contract-based deductive verification of Schema.is_subtype (pyvc/z3, structural induction + lemma) + path-wise cache-invalidation obligations + violation injection",
+        technique="contract-based deductive verification of Schema.is_subtype (pyvc/z3, structural induction + lemma) + path-wise cache-invalidation obligations + trace contracts on the validate_* rule loops + violation injection",
         text="Schema.is_subtype proved equal to the specification's covariance relation for all type expressions (reflexivity lemma by structural "
              "induction); every normal-return path of register_resolver / register_default_resolver / register_subscription that writes a resolver "
-             "resets the memoised verdict (syntactic-path obligations over the real source). Bounded: valid schemas accepted, 33 labelled violations "
-             "(single and multiple) rejected with all errors reported, definition-order independence, names, re-validation histories.",
-        note="Trusted: spec/typealgebra.valid_impl_type; possible-type membership uninterpreted in the proof. SchemaValidator itself is bounded only."),
+             "(and the default_resolver setter) resets every attribute validate() remembers between calls - derived from validate()'s own source - "
+             "(syntactic-path obligations over the real source). All paths of validate_fields / validate_input_fields / validate_directives / validate_enum_values / "
+             "validate_implementation: every rule's test is made for every element whatever else is wrong with it, and reports exactly when broken (trace contracts). "
+             "Bounded: valid schemas accepted, 35 labelled violations (single and multiple) rejected with all errors reported, definition-order independence, names, "
+             "re-validation histories in both directions (valid -> broken, rejected -> repaired).",
+        note="Trusted: spec/typealgebra.valid_impl_type; possible-type membership uninterpreted in the proof; is_input_type / is_output_type and the resolver-signature "
+             "check are bounded only."),
     "C20": dict(
         category="other", engine="pyvc+rtc",
         technique="contract-based deductive verification of the safe-type-change predicates (pyvc/z3, induction through own contracts) + run-time contracts on elementary edits",
@@ -86,17 +90,17 @@ CLAIMS = {
     "C04": dict(
         category="other", engine="tracecheck+rtc",
         technique="trace contracts over every syntactic path of the executor skeleton (Engine P) + memo-key data-flow obligations on the per-request memos of the execution context + run-time functional contract (ordered data + error multiset + resolver arguments == reference execution algorithm) over generated operations x resolver worlds",
-        text="All requests within one context: each of the five per-request memos (collected fields, field definitions, coerced arguments, directive arguments, wrapped resolvers) is looked up and stored under a key that determines every input of the cached computation and reads only state fixed at construction. All paths: complete_value handles a non-null wrapper before the null test, completes null to null without side effects, serialises a leaf exactly once, executes a composite value's collected sub-selection exactly once and raises only RuntimeError / TypeError itself; _handle_non_nullable_value records exactly one error for a null and returns the value unchanged; both execute_fields resolve each grouped field once, in order, under its key. Bounded: for hand-written merge/fragment patterns plus a seeded generator of valid operations (aliases, same-key merging, fragments at every "
+        text="All requests within one context: each of the five per-request memos (collected fields, field definitions, coerced arguments, directive arguments, wrapped resolvers) is looked up and stored under a key that determines every input of the cached computation (of a value's attributes only its name, or the value's identity, determine it) and reads only state fixed at construction; the execution modules write no module-level state. All paths: complete_value handles a non-null wrapper before the null test, completes null to null without side effects, serialises a leaf exactly once, executes a composite value's collected sub-selection exactly once and raises only RuntimeError / TypeError itself; _handle_non_nullable_value records exactly one error for a null and returns the value unchanged; both execute_fields resolve each grouped field once, in order, under its key. Bounded: for hand-written merge/fragment patterns plus a seeded generator of valid operations (aliases, same-key merging, fragments at every "
              "placement, directives with variables, abstract types, lists, arguments) and worlds placing null / ResolverError / null list item / empty "
-             "list / unexpected exception at every resolved path, both synchronous executors produce exactly the reference result; results are "
+             "list / unexpected exception / errors with a path or a constructor of their own at every resolved path, composite values as dicts and as objects of one Python class, both synchronous executors produce exactly the reference result; results are "
              "independent of earlier requests on the same schema object.",
         note=BND + "Trusted: vf/ref_exec.py + vf/ref_coerce.py (specification transcriptions). The executor is outside the VC generator's subset."),
     "C08": dict(
         category="other", engine="tracecheck+rtc",
-        technique="map_value effect contract checked on all three runtime implementations, gather_futures' ordering, unwrap_future never waiting and complete_value failing the request for unrepresentable leaves (Engine P, all paths, coroutines / done-callbacks sequentialised) + run-time functional contract under every enumerated completion order of parked resolver tasks (stateless DFS over schedules), 4 configurations",
+        technique="map_value effect contract checked on all three runtime implementations, gather_futures' ordering, unwrap_future never waiting and complete_value failing the request for unrepresentable leaves (Engine P, all paths, coroutines / done-callbacks sequentialised) + run-time functional contract under every enumerated completion order of parked resolver tasks (stateless DFS over schedules), 5 configurations",
         text="BlockingRuntime.map_value, AsyncIORuntime.map_value and the thread pool's chain each satisfy the map_value effect contract on every path (then exactly once when the value arrives, else handler only for a matching failure, the target future settled exactly once); gather_futures keeps one slot per source value in source order and fails on the first failure (17 obligations). Bounded: BlockingExecutor, Executor on Blocking / AsyncIO / ThreadPool runtimes each satisfy the C04 contract for every completion order of "
              "the in-flight tasks (thread pool replaced by a parking executor incl. tasks that finish at submit time; asyncio resolvers gated by harness "
-             "futures); unexpected exceptions surface unchanged; nothing stays pending once all tasks ran.",
+             "futures); the asyncio runtime in its default mode (plain resolvers offloaded to real worker threads) gives the same outcome, data, errors and invocations; unexpected exceptions - also of the library's own non-resolver error classes - surface unchanged; nothing stays pending once all tasks ran.",
         note=BND + "Callbacks are atomic (one thread): pre-emptive thread interleavings inside done-callbacks and fair termination are outside this family's reach."),
     "C09": dict(
         category="other", engine="tracecheck+rtc",
@@ -124,23 +128,23 @@ CLAIMS = {
              "visitors and is outside the VC generator's subset."),
     "C15": dict(
         category="other", engine="tracecheck+rtc",
-        technique="trace contract over every path of _format_default_value (Engine P) + frame obligation (the introspection module writes no module-level state) + run-time contract: introspection result == schema objects member by member; defaultValue parses and coerces back to the declared default",
-        text="All histories: no function of the introspection module writes a module-level container, so what a resolver reports depends on the live schema objects only. All paths: defaultValue is null exactly without a declared default; a declared default is rendered by printing the value node of the declared type - except string defaults of scalar type, which are wrapped in quotes unescaped (the listed finding, reproduced as the one failing path). Bounded: SDL-built and code-built schemas (defaults of every kind, deprecations, custom directives) x the standard introspection query "
-             "with and without descriptions, includeDeprecated true / false / default and the disable switch: kinds, names, descriptions, wrapped type "
+        technique="trace contract over every path of _format_default_value (Engine P) + module-state obligation (no written module-level container, or a memo whose key determines every read: vf/modstate.py) + run-time contract: introspection result == schema objects member by member; defaultValue parses and coerces back to the declared default",
+        text="All histories: no function of the introspection module writes a module-level container (a memo would have to be keyed by everything its computation reads), so what a resolver reports depends on the live schema objects only. All paths: defaultValue is null exactly without a declared default; a declared default is rendered by printing the value node of the declared type - except string defaults of scalar type, which are wrapped in quotes unescaped (the listed finding, reproduced as the one failing path). Bounded: SDL-built and code-built schemas (defaults of every kind, deprecations, custom directives) x the standard introspection query "
+             "with and without descriptions, includeDeprecated true / false / default and the disable switch (aliased meta fields stay hidden, ordinary fields aliased like meta fields stay visible): kinds, names, descriptions, wrapped type "
              "chains, fields, arguments, input fields, enum values, interfaces, possible types, directives and locations, roots and deprecations equal "
              "the schema; every defaultValue is GraphQL text that coerces back to the declared default.",
         note=BND + "Known finding: string defaults nested in lists / input objects are not escaped (partially repaired by a fix: commit; the rest is pinned by tests)."),
     "C16": dict(
         category="other", engine="tracecheck+rtc",
         technique="trace contracts over every syntactic path of the real functions (ghost event words, callees by effect contract; unbounded in the inputs) + run-time hook / middleware trace contracts over request outcomes x runtimes x completion orders",
-        text="All paths: stage hooks of process_graphql_query / execute / subscribe fire at most once, properly nested, ended whenever a result is returned, execution stage only for accepted requests; field hooks of both resolve_field implementations fire exactly once around the resolver on every returning path; MultiInstrumentation runs start hooks in order and end hooks in reverse (56 obligations). Bounded: stage hooks paired, properly nested, at most once, ended even on errors; field hooks exactly once per resolved field around the "
+        text="All paths: stage hooks of process_graphql_query / execute / subscribe fire at most once, properly nested, ended whenever a result is returned, execution stage only for accepted requests and ended in the continuation of the root selection's value (field hooks lie inside it); field hooks of both resolve_field implementations fire exactly once around the resolver on every returning path; MultiInstrumentation runs start hooks in order and end hooks in reverse (81 obligations). Bounded: stage hooks paired, properly nested, at most once, ended even on errors; field hooks exactly once per resolved field around the "
              "resolver call; middlewares exactly once in the documented nesting; stacked instrumentations start in order and end in reverse; all 4 "
              "configurations and completion orders.",
         note=BND + "Assumed: map_value effect contract for asynchronous runtimes; hooks do not raise; complete_value raises no resolver error. Middleware nesting is bounded only. Ghost-trace contracts over callbacks are evaluated at run time only."),
     "C17": dict(
         category="other", engine="tracecheck+rtc",
         technique="trace contracts over every syntactic path of the real functions (ghost event words, callees by effect contract; unbounded in the inputs) + run-time per-event contract against the reference executor over enumerated event sequences",
-        text="All paths: subscribe / create_source_event_stream raise their refusals before the source stream is created or the subscription resolver invoked; execute_subscription_event clears the shared error list before executing each event and builds one result from that event's data. Bounded: all event sequences of length 0..3 over {ok, root resolver error, nested error / null in non-null}, sync and async subscription "
+        text="All paths: subscribe / create_source_event_stream raise their refusals before the source stream is created or the subscription resolver invoked; an execution stage that subscribe started is ended on every path, refusals included; execute_subscription_event clears the shared error list before executing each event and builds one result from that event's data. Bounded: all event sequences of length 0..3 over {ok, root resolver error, nested error / null in non-null}, sync and async subscription "
              "resolvers, delays: one result per event in order, k-th result == selection executed on the k-th event with only its errors (also after an "
              "event that failed unexpectedly); seven refusal cases are raised before the source stream is advanced.",
         note=BND + "Concurrent pulls by a consumer that does not await are not covered."),
@@ -161,15 +165,15 @@ CLAIMS = {
     "C11": dict(
         category="other", engine="tracecheck+rtc",
         technique="trace contract over every path of the definition collector (Engine P) + run-time structural equality between a declarative reading of the SDL and the built schema, over orders and extension splits",
-        text="All paths of _collect_definitions: a second definition of a type / directive name or a second schema definition is rejected with an SDL error, never overwritten, and nothing but SDL errors is raised there. Bounded: describe(build_schema(doc)) == describe_sdl(doc) and closed(schema) for the base schema, 50+ edited variants and documents with "
+        text="All paths of _collect_definitions: a second definition of a type / directive name or a second schema definition is rejected with an SDL error, never overwritten, and nothing but SDL errors is raised there. Module frame: the SDL builder modules keep no written module-level state. Bounded: describe(build_schema(doc)) == describe_sdl(doc) and closed(schema) for the base schema, 50+ edited variants and documents with "
              "recursion / defaults / descriptions / deprecations / schema definitions, under definition permutations, random splits of members into "
-             "extend blocks, ignore_extensions and additional_types; 23 labelled invalid documents raise only schema / SDL errors.",
+             "extend blocks, ignore_extensions and additional_types; extending a built base with the rest of a document (defining and extending new types in any order, strict or not) equals building the whole; 23 labelled invalid documents raise only schema / SDL errors.",
         note=BND + "Known finding: defaults are coerced before extensions are merged."),
     "C12": dict(
         category="other", engine="rtc",
-        technique="frame obligations on the serialisation code (no consumable module state read; no in-place mutation of argument state, by alias analysis of the real source) + run-time round-trip / fix-point / history contracts",
+        technique="frame obligations on the serialisation code (no consumable module state read; no in-place mutation of argument state, by alias analysis of the real source; module-level memo keys cover what they cache) + run-time round-trip / fix-point / history contracts",
         text="The serialisation modules hold no consumable module-level state that their functions read (generators / iterators), checked on the live "
-             "modules; no method of the schema printer and no function it prints through mutates state reachable from its arguments (18 obligations). Bounded: schema -> SDL -> schema structural identity (defaults in external form), text fix-point, parser acceptance for 11 "
+             "modules; no method of the schema printer and no function it prints through mutates state reachable from its arguments (18 obligations); the printer modules write no module-level container unless as a memo whose key determines every value the computation reads. Bounded: schema -> SDL -> schema structural identity (defaults in external form), text fix-point, parser acceptance for 11 "
              "schemas x 6 option sets; every call of 2-3 call sequences equals the first call of a fresh process.",
         note=BND + "Trusted: vf/ref_sdl.describe; build_schema (C11)."),
 }
